@@ -2,6 +2,7 @@
 package c05
 
 import (
+	"encoding/json"
 	"fmt"
 	"slices"
 	"sync"
@@ -16,6 +17,7 @@ import (
 
 	"verif/harness/internal/dom"
 	"verif/harness/internal/pbt"
+	"verif/harness/internal/via"
 )
 
 func TestMain(m *testing.M) { pbt.Main(m, "C05") }
@@ -52,19 +54,19 @@ func build(kind string, c int) box {
 	switch kind {
 	case "arraystack":
 		s := arraystack.New[int]()
-		return box{s.Push, s.Pop, s.Peek, s.Clear, s.Size, s.Empty, s.Values, nil, true, s.ToJSON, s.FromJSON}
+		return box{s.Push, s.Pop, s.Peek, s.Clear, s.Size, s.Empty, s.Values, nil, true, s.ToJSON, via.AutoLoader(s)}
 	case "linkedliststack":
 		s := linkedliststack.New[int]()
-		return box{s.Push, s.Pop, s.Peek, s.Clear, s.Size, s.Empty, s.Values, nil, true, s.ToJSON, s.FromJSON}
+		return box{s.Push, s.Pop, s.Peek, s.Clear, s.Size, s.Empty, s.Values, nil, true, s.ToJSON, via.AutoLoader(s)}
 	case "arrayqueue":
 		q := arrayqueue.New[int]()
-		return box{q.Enqueue, q.Dequeue, q.Peek, q.Clear, q.Size, q.Empty, q.Values, nil, false, q.ToJSON, q.FromJSON}
+		return box{q.Enqueue, q.Dequeue, q.Peek, q.Clear, q.Size, q.Empty, q.Values, nil, false, q.ToJSON, via.AutoLoader(q)}
 	case "linkedlistqueue":
 		q := linkedlistqueue.New[int]()
-		return box{q.Enqueue, q.Dequeue, q.Peek, q.Clear, q.Size, q.Empty, q.Values, nil, false, q.ToJSON, q.FromJSON}
+		return box{q.Enqueue, q.Dequeue, q.Peek, q.Clear, q.Size, q.Empty, q.Values, nil, false, q.ToJSON, via.AutoLoader(q)}
 	case "circularbuffer":
 		q := circularbuffer.New[int](c)
-		return box{q.Enqueue, q.Dequeue, q.Peek, q.Clear, q.Size, q.Empty, q.Values, q.Full, false, q.ToJSON, q.FromJSON}
+		return box{q.Enqueue, q.Dequeue, q.Peek, q.Clear, q.Size, q.Empty, q.Values, q.Full, false, q.ToJSON, via.AutoLoader(q)}
 	}
 	panic("unknown kind " + kind)
 }
@@ -141,6 +143,14 @@ func check(c Case) (pbt.Info, error) {
 			b.clear()
 			model = nil
 			start = 0
+		case "badload":
+			// a load that fails leaves the container exactly as it was (nothing
+			// dequeued or popped earlier comes back, nothing is lost)
+			doc := []byte([]string{`{}`, `[1,"x"]`, `[1,2`, `"s"`, `7`, `[1.5]`, `[null,{}]`}[op.V%7])
+			if err := b.load(doc); err == nil {
+				return info, fmt.Errorf("step %d: loading %s did not fail", i, doc)
+			}
+			info.Label("failed-load")
 		case "load":
 			// a state reached through FromJSON is a reachable state.  The document is
 			// what a fresh container of the same kind and capacity, brought to the
@@ -161,6 +171,13 @@ func check(c Case) (pbt.Info, error) {
 			doc, err := src.toJSON()
 			if err != nil {
 				return info, fmt.Errorf("step %d: ToJSON of a fresh container holding %v failed: %v", i, want, err)
+			}
+			if ring && len(op.Vs) > c.Cap {
+				// a document longer than the capacity: the ring keeps the LAST capacity-many
+				// values.  (A queue's array lists its elements oldest first — its Values() —
+				// so the over-long document is simply the array of op.Vs.)
+				doc, _ = json.Marshal(op.Vs)
+				info.Label("load:longer-than-capacity")
 			}
 			if err := b.load(doc); err != nil {
 				return info, fmt.Errorf("step %d: FromJSON(%s) failed: %v", i, doc, err)
@@ -238,6 +255,10 @@ func gen(kind string) func(t *rapid.T) Case {
 		for i := 0; i < n; i++ {
 			switch dom.Weighted(t, "op", 1, 50, 30, 8, 2, 2) {
 			case 5:
+				if rapid.IntRange(0, 2).Draw(t, "bad") == 0 {
+					c.Ops = append(c.Ops, Op{O: "badload", V: rapid.IntRange(0, 6).Draw(t, "which")})
+					continue
+				}
 				c.Ops = append(c.Ops, Op{O: "load", Vs: rapid.SliceOfN(rapid.IntRange(0, 9), 0, 12).Draw(t, "doc")})
 			case 0: // nop (shrink target)
 			case 1:
@@ -276,7 +297,7 @@ func genLong(kind string) func(t *rapid.T) Case {
 		next := 1
 		phases := rapid.IntRange(1, 8).Draw(t, "phases")
 		for p := 0; p < phases; p++ {
-			n := rapid.IntRange(1, 220).Draw(t, "len")
+			n := rapid.IntRange(1, pbt.Size(220)).Draw(t, "len")
 			switch dom.Weighted(t, "phase", 5, 4, 4, 1, 1) {
 			case 4:
 				c.Ops = append(c.Ops, Op{O: "load", Vs: rapid.SliceOfN(rapid.IntRange(0, 50), 0, 150).Draw(t, "doc")})
